@@ -336,20 +336,34 @@ def errsOf {α : Type} (r : Res α) : List Cat := match r with | .err c => c | _
 theorem errs_of_rr {α β : Type} {R : α → β → Prop} {r : Res α} {r' : Res β} (h : RR R r r') : errsOf r = errsOf r' := by
   cases r <;> cases r' <;> simp only [RR] at h <;> first | rfl | exact h
 
+/-- the outcome is not settled (neither a value nor an error): `widen` answers `nondet` when an element has such an
+    outcome -/
+def unsOf {α : Type} (r : Res α) : Bool := match r with | .ok _ => false | .err _ => false | _ => true
+
+theorem uns_of_rr {α β : Type} {R : α → β → Prop} {r : Res α} {r' : Res β} (h : RR R r r') : unsOf r = unsOf r' := by
+  cases r <;> cases r' <;> simp only [RR] at h <;> first | rfl | exact h.elim
+
 theorem widen_def {α : Type} (t : ATag) (xs : List Val) (fs : List (Val → Res Val)) (extra : List Cat) (r : Res α) :
     widen t xs fs extra r = (match r with
       | .err cs =>
-        if enum2 t xs then .err (Cat.dedup (cs ++ extra ++ xs.flatMap (fun x => fs.flatMap (fun f => errsOf (f x)))))
+        if enum2 t xs then
+          if xs.any (fun x => fs.any (fun f => unsOf (f x))) then .nondet
+          else .err (Cat.dedup (cs ++ extra ++ xs.flatMap (fun x => fs.flatMap (fun f => errsOf (f x)))))
         else .err cs
       | r => r) := by
   cases r <;> simp only [widen]
   split
-  · refine congrArg Res.err (congrArg Cat.dedup (congrArg _ ?_))
-    refine congrArg (fun g => List.flatMap g xs) ?_
-    funext x
-    refine congrArg (fun g => List.flatMap g fs) ?_
-    funext f
-    cases f x <;> rfl
+  · refine ite_congr (congrArg (· = true) (congrArg (fun g => List.any xs g) ?_)) (fun _ => rfl) (fun _ => ?_)
+    · funext x
+      refine congrArg (fun g => List.any fs g) ?_
+      funext f
+      cases f x <;> rfl
+    · refine congrArg Res.err (congrArg Cat.dedup (congrArg _ ?_))
+      refine congrArg (fun g => List.flatMap g xs) ?_
+      funext x
+      refine congrArg (fun g => List.flatMap g fs) ?_
+      funext f
+      cases f x <;> rfl
   · rfl
 
 end
